@@ -183,6 +183,19 @@ def check_case(ctx, case):
         ctx.klass('count type ' + ctype)
     lacking = [k for k, _ in pairs
                if not ('thermochem' in lib[k])]
+    if lacking and len(repr(case['mapping'])) % 2 == 0:
+        # a caller who looked a data-less name up and wrote into what came
+        # back (a no-op on a private empty dict) must not thereby give data
+        # to OTHER data-less names
+        donors = keys_with_data(lib)
+        if donors:
+            try:
+                scratch = lib['Qq(Zz)%d' % (2 + len(lacking))]
+                if isinstance(scratch, dict) and not scratch:
+                    scratch['thermochem'] = lib[donors[0]]['thermochem']
+                    ctx.count('absent_lookup_results_scribbled_on')
+            except Exception:
+                pass
     o = observe(lib.Estimate, mapping, 'thermochem')
     ctx.evals()
     key = [case['lib'], case['mapping'], case.get('keyform', 'str'),
